@@ -209,6 +209,49 @@ def run_duration(stats, vs):
                 vs.append(mk("implementation-or-not-supported", b, f"mutate:{label}", f"exception:{X.exc_label(e)}", {"message": str(e)[:300]}))
 
 
+def run_nonstrict(stats, vs):
+    """non-strict casts (cast(..., strict=False)): values are backend-dependent (DESIGN 4.8) and are
+    not compared, but every dialect has to compile them (or raise NotSupportedError)"""
+    w = U.world()
+    built = {"polars": W.build(w, "polars"), "sqlite": W.build(w, "sqlite")}
+    built.update({d: D.build(w, d) for d in DIALECTS})
+    targets = {"int32": pdt.Int32, "int64": pdt.Int64, "float64": pdt.Float64, "str": pdt.String, "date": pdt.Date, "datetime": pdt.Datetime}
+    pairs = [("bool", "int32"), ("bool", "int64"), ("bool", "float64"), ("str", "int64"), ("str", "float64"), ("int64", "str"), ("float64", "str"),
+             ("float64", "int32"), ("int64", "float64"), ("int8", "int64"), ("date", "datetime"), ("datetime", "date"), ("date", "str"), ("datetime", "str")]
+    try:
+        for src, tgt in pairs:
+            for b, bl in built.items():
+                tbl = bl.tables["T"]
+                for shape in ("col", "expr"):
+                    stats["states"] += 1
+                    stats["transitions"] += 1
+                    label = f"cast({shape}:{src} -> {tgt}, strict=False)"
+                    try:
+                        with warnings.catch_warnings():
+                            warnings.simplefilter("ignore")
+                            x = tbl[f"c_{src}"]
+                            if shape == "expr":
+                                x = x.fill_null(x)
+                            t2 = tbl >> pdt.mutate(y=x.cast(targets[tgt](), strict=False)) >> pdt.filter(pdt.C.k >= 1)
+                            if b in ("polars", "sqlite"):
+                                t2 >> pdt.export(pdt.Polars())
+                            else:
+                                check_compiled(t2 >> pdt.build_query(), b, f"mutate:{label}", vs)
+                        stats[f"{b}:implemented"] += 1
+                        stats["traces_validated"] += 1
+                    except Exception as e:  # noqa: BLE001
+                        if type(e).__name__ in ("NotSupportedError", "SubqueryError"):
+                            stats[f"{b}:{type(e).__name__}"] += 1
+                            stats["traces_validated"] += 1
+                            continue
+                        if b in ("polars", "sqlite") and src == "str" and "conversion" in str(e):
+                            continue
+                        vs.append(mk("implementation-or-not-supported", b, f"mutate:{label}", f"exception:{X.exc_label(e)}", {"message": str(e)[:300]}))
+    finally:
+        built["polars"].close()
+        built["sqlite"].close()
+
+
 def check_compiled(q, b, label, vs):
     import re
 
@@ -244,6 +287,7 @@ def tasks(tier):
     for hs in HASHSEEDS:
         out.append({"part": "hist", "world": 0, "first": None, "depth": DIGEST_DEPTH, "hashseed": hs})
     out.append({"part": "duration"})
+    out.append({"part": "nonstrict"})
     np_ = len(op_programs())
     for i in range(0, np_, 80):
         out.append({"part": "ops", "range": [i, min(np_, i + 80)]})
@@ -251,10 +295,12 @@ def tasks(tier):
 
 
 def run_task(task, tier):
-    if task["part"] in ("ops", "duration"):
+    if task["part"] in ("ops", "duration", "nonstrict"):
         stats, vs = Counter(), []
         if task["part"] == "ops":
             run_ops(task["range"], stats, vs)
+        elif task["part"] == "nonstrict":
+            run_nonstrict(stats, vs)
         else:
             run_duration(stats, vs)
         merged = {}
@@ -301,6 +347,10 @@ def finalize(total, tier, seed):
 
 def recheck(rec):
     p = rec.get("params") or {}
+    if p.get("part") == "ops" and "strict=False" in rec["py"]:
+        stats, vs = Counter(), []
+        run_nonstrict(stats, vs)
+        return [v for v in vs if v["class"] == rec["class"]]
     if p.get("part") == "ops" and rec["py"].split(":", 1)[-1].split("(")[0] in ("dur.days", "dur.hours", "dur.minutes", "dur.seconds", "dur.milliseconds", "dur.microseconds", "datetime-datetime", "datetime+duration", "duration+duration", "duration==duration", "max", "min-horizontal"):
         stats, vs = Counter(), []
         run_duration(stats, vs)
@@ -327,7 +377,8 @@ def describe(tier):
                             f"same text in {len(HASHSEEDS)} other processes with different PYTHONHASHSEED (histories of depth <= {DIGEST_DEPTH})"]},
         "ops": {"programs": len(op_programs()), "backends": ["polars (export)", "sqlite (export)", "postgres (compile)", "mssql (compile)"],
                 "contexts": "mutate; summarize additionally for aggregates", "invariant": "executes / compiles (not to a bare NULL), or raises NotSupportedError",
-                "duration": "12 programs over Duration / Datetime columns compiled on PostgreSQL and SQL Server and exported on polars"},
+                "duration": "12 programs over Duration / Datetime columns compiled on PostgreSQL and SQL Server and exported on polars",
+                "nonstrict": "14 (source, target) pairs x 2 shapes with cast(..., strict=False) on all four backends (values not compared)"},
         "regime": "tree + exhaustive operator sweep",
         "assumptions": ["stub DBAPI modules only provide what SQLAlchemy needs to construct an engine; no statement is sent anywhere",
                         "reference model used only for enabledness"],
